@@ -52,7 +52,8 @@ func mSqrt(matrix Matrix) (Matrix, error) {
   Y1.MmulS(Y1.MaddM(Y0, t1), c)
   Z1 := Z0.CloneMatrix()
   Z1.MmulS(Z1.MaddM(Z0, t2), c)
-  for t0.Mnorm(S.MsubM(Y0, Y1)).GetFloat64() > 1e-8 {
+  // Mnorm returns the squared Frobenius norm: stop when ||Y0 - Y1||_F <= 1e-8
+  for t0.Mnorm(S.MsubM(Y0, Y1)).GetFloat64() > 1e-8*1e-8 {
     verifhook.Tick("msqrt.iter")
     Y0, Y1 = Y1, Y0
     Z0, Z1 = Z1, Z0
